@@ -3,51 +3,10 @@ From Coq Require Import List ZArith NArith Bool Lia.
 From RecordUpdate Require Import RecordSet.
 From PC.Base Require Import Assoc.
 From PC.Sup Require Import Model Monitors Tactics Sim ObsFacts Effects RelCore.
+From PC.Sup Require Import MonC12w.
 From PC.Sup Require Import LemC12 LemC12Inst LemC12Obs LemC12Obs2 LemC12Frame LemC12Ev LemC12Run RelC12.
 From PC.Sup Require Import RelC12Api RelC12Stop RelC12State RelC12ProcEnd RelC12Env RelC12Own RelC12Shutdown.
 Import ListNotations RecordSetNotations.
-
-(* ---- ghost state: the worker goroutines of the ordered shutdown in progress ------------------------ *)
-Definition gst := amap iid.
-Definition g_step (g : gst) (te : tid * event) : gst :=
-  match snd te with
-  | EOrderedGo i => set (fst te) i g
-  | EShutdownEnd => []
-  | _ => g
-  end.
-Definition is_worker (g : gst) (th : tid) (i : iid) : bool := opt_eqb N.eqb (get th g) (Some i).
-
-(* the C12 monitor restricted to the stop signals issued by workers of the shutdown in progress *)
-Definition mon_w (ord : bool) (cs : amap pconf) (o : obs) (g : gst) (te : tid * event) : bool :=
-  match snd te with
-  | ESignal i _ _ => if is_worker g (fst te) i then mon_C12 ord cs o te else true
-  | _ => true
-  end.
-(* no stop signal from anybody else to a member of the snapshot of a shutdown in progress *)
-Definition foreign_ok (o : obs) (g : gst) (te : tid * event) : bool :=
-  match snd te with
-  | ESignal i _ _ => is_worker g (fst te) i || negb (existsb (fun snap => memN i (snd snap)) (o_sd_cur o))
-  | _ => true
-  end.
-(* side condition of the simulation (see notes/C12.md): a stop execution concludes "Pending" only about an
-   instance whose command was never launched, and not on the instance goroutine's own thread *)
-Definition side_ok (o : obs) (g : gst) (te : tid * event) : bool :=
-  match snd te with
-  | EStopPending i => Nat.eqb (o_launches (oi_get o i)) 0 && negb (opt_eqb N.eqb (get (fst te) (o_th o)) (Some i))
-  | _ => true
-  end.
-
-Fixpoint run3 (P : obs -> gst -> tid * event -> bool) (cs : amap pconf) (o : obs) (g : gst) (evs : list (tid * event)) : bool :=
-  match evs with
-  | [] => true
-  | e :: r => P o g e && run3 P cs (obs_step cs o e) (g_step g e) r
-  end.
-
-Definition holds_C12w (ord : bool) (cs : amap pconf) (evs : list (tid * event)) : bool :=
-  run3 (mon_w ord cs) cs (obs0 cs) [] evs.
-Definition c12_side (cs : amap pconf) (evs : list (tid * event)) : bool := run3 side_ok cs (obs0 cs) [] evs.
-Definition c12_noforeign (cs : amap pconf) (evs : list (tid * event)) : bool := run3 foreign_ok cs (obs0 cs) [] evs.
-Definition W_C12 (o : obs) : bool := w_commit o || w_sdlag o.
 
 Lemma pend_at_same sp : LemC12Frame.pend_at sp = RelC12.pend_at sp.
 Proof. reflexivity. Qed.
